@@ -2,18 +2,19 @@
 (* Trace specification: every command line started through the real Process (harness/proc, op "cmd") and the
    argument vector echoed by the helper child, judged against CmdLine.                                      *)
 EXTENDS CmdLine, Json, IOUtils
-VARIABLES l, nbad
+VARIABLES l, nbad, ndom       \* ndom counts the command lines inside the documented form (vacuity check)
 T == ndJsonDeserialize(IOEnv.TRACE)
-TInit == l = 1 /\ nbad = 0 /\ st = <<>> /\ last = 0
+TInit == l = 1 /\ nbad = 0 /\ ndom = 0 /\ st = <<>> /\ last = 0
 TStep ==
   /\ l <= Len(T)
   /\ l' = l + 1
   /\ UNCHANGED <<st, last>>
+  /\ ndom' = IF T[l].op = "cmd" /\ Split(T[l].cl).ok THEN ndom + 1 ELSE ndom
   /\ LET e == T[l]
          why == IF e.op = "cmd" THEN CmdWhy(e) ELSE "ok"
      IN IF why = "ok" THEN UNCHANGED nbad
         ELSE PrintT(<<"MISMATCH", l, why>>) /\ nbad' = nbad + 1
-TDone == l = Len(T) + 1 /\ PrintT(<<"TRACE-DONE", Len(T), nbad>>) /\ l' = l + 1 /\ UNCHANGED <<st, last, nbad>>
+TDone == l = Len(T) + 1 /\ PrintT(<<"TRACE-DONE", Len(T), nbad, ndom>>) /\ l' = l + 1 /\ UNCHANGED <<st, last, nbad, ndom>>
 TNext == TStep \/ TDone
-TSpec == TInit /\ [][TNext]_<<vars, l, nbad>>
+TSpec == TInit /\ [][TNext]_<<vars, l, nbad, ndom>>
 ================================================================================
